@@ -266,6 +266,27 @@ theorem accepted_type_errors_witness :
     (check (cfgWith .asIs) exprMapKey).errClass = some .badMapKey := by
   decide +kernel
 
+/-- `Fs2(+I)` where `Fs2 func(float64) float64`-like parameter: here `Ff64(+I)` with an `int` operand -/
+def envTy2 : Ty := .named "main.E2" []
+  (.struct [fld "Ff" (.func [.num .float64] false [.num .float64]), fld "I" tInt])
+
+def cfgWith2 (dt : TDefects) : CheckCfg :=
+  { types := createTypesTable .asIs id { ty := some envTy2 }, strict := true, dt := dt }
+
+/-- `Ff(+I)` -/
+def exprFfPlusI : Node := .func {} "Ff" [.unary {} "+" (ident "I")] false
+
+/-- `c03:ill-typed-accepted:retyped-non-literal-argument` (known): an argument that is a unary `+ -` or
+a `+ - * /` expression takes the parameter's type even when it contains no integer literal at all:
+`Ff(+I)` with `I int`, `Ff func(float64) float64` is accepted (type float64); at run time the `int`
+reaches `reflect.Call` ("Call using int as type float64").  The documented rule retypes integer
+*literals*. -/
+theorem retype_non_literal_witness :
+    (check (cfgWith2 .asIs) exprFfPlusI).okType = some (some (.num .float64)) ∧
+    ¬ WellTyped (cfgWith2 .asIs) exprFfPlusI ∧
+    (check (cfgWith2 .repaired) exprFfPlusI).errClass = some .badArgument := by
+  decide +kernel
+
 /-- the full rejection statement for the code's own flags … -/
 def check_rejects_goal (dt : TDefects) : Prop :=
   ∀ (cfg : CheckCfg) (n : Node), cfg.dt = dt → ¬ WellTyped cfg n → ∀ n' τ, check cfg n ≠ .ok n' τ
